@@ -267,6 +267,37 @@ fn part_iii(ctx: &mut Ctx) {
     for e in ["1e1000", "1e-1000", "-1e1000", "1e999999999999", "1E+308", "1e309", "0e99999", "1e", "1e+", "-", "-.", "1.", ".1", "1.e1", "00", "-01", "0x10", "1e1e1"] {
         fam.push(e.as_bytes().to_vec());
     }
+    // histories of malformed records: the same broken record n times, then valid values
+    // (state that leaks from one failed record into the next only shows after several)
+    let broken: Vec<Vec<u8>> = vec![
+        b"[x".to_vec(),
+        b"[[[[x".to_vec(),
+        [b"[".repeat(40), b"x".to_vec()].concat(),
+        [b"{\"a\":".repeat(30), b"x".to_vec()].concat(),
+        b"{\"a\": [1, 2}".to_vec(),
+        b"{\"a\":{x".to_vec(),
+        b"[1,".to_vec(),
+        b"{\"a\"".to_vec(),
+        b"\"\\q\"".to_vec(),
+        b"[\"\\u12".to_vec(),
+        b"[tru".to_vec(),
+        b"[-".to_vec(),
+        b"[1e".to_vec(),
+    ];
+    for r in &broken {
+        for n in [1usize, 2, 3, 4, 5, 8, 16, 33, 65, 130, 300, 1000] {
+            if (r.len() + 1) * n > 4096 {
+                continue;
+            }
+            let mut f = Vec::new();
+            for _ in 0..n {
+                f.extend_from_slice(r);
+                f.push(b'\n');
+            }
+            f.extend_from_slice(b"[1]\n{\"a\":[2]}\n3\n");
+            fam.push(f);
+        }
+    }
     for f in fam {
         if !ctx.mine() {
             continue;
@@ -275,7 +306,7 @@ fn part_iii(ctx: &mut Ctx) {
             bytes_run(ctx, &f, Some(p));
         }
     }
-    ctx.level_done("iii:structural-families<=4KiB,nesting<=64");
+    ctx.level_done("iii:structural-families<=4KiB,nesting<=64,repeated-malformed-records");
 }
 
 pub const ATOMS: &[&str] = &[
